@@ -34,7 +34,7 @@ from vlib.elf import Elf
 
 PROP = "C30"
 META = {
-    "ready": False,
+    "ready": True,
     "level": "model_checking",
     "technique": "TLA+ spec of GNU ld's constructor-order rule and an operational transcription of wild's rule compared exhaustively by TLC on bounded scenarios; TLC-enumerated scenarios replayed into real wild and real GNU ld links whose arrays are read back and executed",
     "level_text": "TLC explores every scenario with <=3 objects x <=3 entries (<=3-4 in total) over the five input arrays and the priority suffixes {none,0,1,100,101,65534,65535,..}, plus all archive layouts of <=3 members, and checks that the transcription of wild's ordering rule equals the declarative GNU ld rule outside three recorded deviation classes; a seeded sample of those scenarios (with the spec's predicted order) is linked with wild and with GNU ld 2.40, the arrays are read from both outputs and both programs are run: spec = GNU ld is enforced on every case, and wild must equal it.",
@@ -58,7 +58,7 @@ def model_check(ctx, cov):
     if ctx.quick:
         cfgs = [("mc/InitOrder_quick.cfg", 8, 900, 32)]
     else:
-        cfgs = [("mc/InitOrder_thorough.cfg", 4, 2400, 96), ("mc/InitOrder_thorough_b.cfg", 4, 2400, 96)]
+        cfgs = [("mc/InitOrder_thorough.cfg", 4, 2400, 128), ("mc/InitOrder_thorough_b.cfg", 4, 2400, 128)]
     dev_mod = os.environ.get("VERIF_C30_MOD")      # development aid: thinner sample
     env_for = lambda mod: {"C30_MOD": dev_mod or str(mod), "C30_SEED": str(ctx.seed % 1000003)}  # noqa: E731
 
